@@ -9,6 +9,8 @@ package app
 
 import (
 	"context"
+	"os"
+	"path/filepath"
 	"database/sql"
 	"encoding/json"
 	"fmt"
@@ -111,6 +113,11 @@ type vsEnv struct {
 	failedIDs map[string]bool
 	queriesRun int
 }
+
+var (
+	vsTmp  string
+	vsTmpN int
+)
 
 var idRE = regexp.MustCompile(`^(\d{8})\.(\d+)$`)
 
@@ -338,7 +345,14 @@ func (e *vsEnv) settle(attempts []*vsAttempt, faultsOn bool) {
 		}
 		created := e.fs.createdBy(a.client)
 		if !ok {
+			onDisk := map[string][]byte{}
+			if e.fs.inner != nil {
+				onDisk = e.fs.stored()
+			}
 			for _, f := range created {
+				if _, there := onDisk[f.name]; !f.closedOK && e.fs.inner != nil {
+					f.visible = there // the real directory is the ground truth
+				}
 				if !f.closedOK && f.visible {
 					r.Fail("all-or-nothing", "failed-upload-leaves-file", "%s: upload failed (%d %q, fault %+v) but the file being written, %s, is still stored (%d bytes)", a.client, a.status, clipS(a.body), a.fault, f.name, len(f.buf))
 				}
@@ -735,12 +749,23 @@ func vsScenario(t *testing.T, r *sim.Run, s *sim.Sched, lane string, faultsOn bo
 	T := r.T
 	e := &vsEnv{t: t, r: r, s: s, T: T, lane: lane}
 	personality := fsObjectStore
-	if faultsOn && T.Bool("personality") {
-		personality = fsLocalDisk
+	if faultsOn {
+		personality = T.Intn(3, "personality")
 	}
-	r.Info["fs"] = []string{"object-store", "local-disk"}[personality]
+	r.Info["fs"] = []string{"object-store", "local-disk", "real storage/fs/local"}[personality]
 	e.setup(personality)
 	defer e.teardown()
+	if personality == fsRealLocal {
+		if vsTmp == "" {
+			vsTmp = t.TempDir()
+		}
+		vsTmpN++
+		dir := filepath.Join(vsTmp, fmt.Sprint(vsTmpN))
+		os.MkdirAll(dir, 0o755)
+		defer os.RemoveAll(dir)
+		e.fs.useRealLocal(dir)
+		r.Hit("real storage/fs/local under the fault wrapper")
+	}
 	maxClients := 1
 	if lane != "seq" {
 		maxClients = 3
